@@ -639,6 +639,21 @@ def postProcessAnn (snap : Snap) (ann : List (Nat × Score)) (k : Nat) : List Ca
 def annWithTrueScores (snap : Snap) (q : List Int) (ids : List Nat) : List (Nat × Score) :=
   ids.filterMap fun i => (snap[i]?).map fun e => (i, score .cosine q e.2)
 
+/-- `search_with_post_filter` when `search_similar(query, oversample_k)` answered from the cached
+    index (lib.rs:3575-3594): the post-processed index answer (`cut` = `oversample_k` entries at
+    most), each entry flagged with `evaluate_filter_for_key` on the CURRENT store ... -/
+def postFilterCands (snap : Snap) (cur : Items) (ann : List (Nat × Score)) (cut : Nat) (f : Filter) :
+    List Cand :=
+  (postProcessAnn snap ann cut).map fun c =>
+    { c with pass := match alGet cur c.key with
+        | some it => evalFilter it.md f
+        | none => false }
+
+/-- ... `.filter(..).take(top_k)` -/
+def postFilterAnn (snap : Snap) (cur : Items) (ann : List (Nat × Score)) (cut k : Nat) (f : Filter) :
+    List Cand :=
+  ((postFilterCands snap cur ann cut f).filter (·.pass)).take k
+
 /-! ## 6. Reads -/
 
 def getDefault (st : State) (key : String) : Option (List Int) := (alGet st.dflt.items key).map vecOf
